@@ -468,10 +468,22 @@ fn gen_sw_affine<P: sw::SWCurveConfig>(g: &mut G<'_>) -> sw::Affine<P> {
         // curve points whose y has a zero coordinate (x^3+b in the prime subfield): sign-selection ties
         4 | 5 | 6 if g.invalid_ok && P::BaseField::extension_degree() == 2 => match sw_x_with_rhs_in_subfield::<P>(g) {
             Some(x) => {
+                // y is built from a square root in the PRIME field (not the extension's sqrt, which
+                // is part of what decompression exercises): rhs = c0 in Fp; y = (sqrt c0, 0) when c0
+                // is a residue of Fp, else (0, sqrt(c0 / beta))
+                type Bp<P> = <<P as CurveConfig>::BaseField as Field>::BasePrimeField;
                 let rhs = x.square() * x + P::COEFF_A * x + P::COEFF_B;
-                match rhs.sqrt() {
-                    Some(y) => sw::Affine::<P>::new_unchecked(x, if g.rng.chance(1, 2) { y } else { -y }),
-                    None => sw_random_curve_point::<P>(g),
+                let c0 = rhs.to_base_prime_field_elements().next().unwrap();
+                let mk = |a: Bp<P>, b: Bp<P>| P::BaseField::from_base_prime_field_elems([a, b]).unwrap();
+                let u = mk(Bp::<P>::zero(), Bp::<P>::ONE);
+                let beta = u.square().to_base_prime_field_elements().next().unwrap();
+                let y = match c0.sqrt() {
+                    Some(r) => Some(mk(r, Bp::<P>::zero())),
+                    None => beta.inverse().and_then(|bi| (c0 * bi).sqrt()).map(|r| mk(Bp::<P>::zero(), r)),
+                };
+                match y {
+                    Some(y) if y.square() == rhs => sw::Affine::<P>::new_unchecked(x, if g.rng.chance(1, 2) { y } else { -y }),
+                    _ => sw_random_curve_point::<P>(g),
                 }
             },
             None => sw_random_curve_point::<P>(g),
